@@ -93,7 +93,8 @@ class Conf:
         det = detector_points(x=self.pts[:, 0].copy(), y=self.pts[:, 1].copy(), z=0.0)
         pol = (math.cos(self.psi), math.sin(self.psi))
         if not self.rot_ok:
-            pol = (1, 0)
+            half_turns = int(round(self.psi / math.pi))
+            pol = (1, 0) if half_turns % 2 == 0 else (-1.0, 0.0)
         sc = self.scatterer()
         h = calc_holo(det, sc, illum_polarization=pol, theory=self.theory, **OPT).values
         f = calc_field(det, sc, illum_polarization=pol, theory=self.theory, **OPT).values
@@ -171,9 +172,11 @@ def run(ctx):
         for e in edges:
             init, path = g.path_to(e[0])
             st = g.states[e[3]]
-            if not conf.rot_ok and st["rot"] != 0:
+            # the T-matrix theory takes x polarisation only: of the rotations only the half turn keeps the
+            # polarisation on the x axis (pointing the other way); it may refuse that, not answer wrongly
+            if not conf.rot_ok and st["rot"] not in (0, 12):
                 continue
-            if not conf.rot_ok and any(p[1] == "RotZ" for p in path + [e]):
+            if not conf.rot_ok and st["rot"] == 0 and any(p[1] == "RotZ" for p in path + [e]):
                 continue
             cur = conf
             for pe in path + [e]:
@@ -187,6 +190,12 @@ def run(ctx):
             ctx.case((conf.name, str(pdesc)), nontrivial=any(p[0] != "Shift" for p in pdesc))
             try:
                 h, f = cur.compute()
+            except ValueError as ex:
+                if not conf.rot_ok and st["rot"] == 12 and "polariz" in str(ex).lower():
+                    ctx.trace_ok()          # a clear refusal of the reversed polarisation
+                    continue
+                ctx.violation("%s/exception" % conf.name, {"exc": repr(ex), "path": pdesc})
+                continue
             except Exception as ex:
                 ctx.violation("%s/exception" % conf.name, {"exc": repr(ex), "path": pdesc})
                 continue
@@ -237,6 +246,26 @@ def run(ctx):
                 ctx.violation("%s/grid_shift" % name, {"v": v, "defect": d})
             else:
                 ctx.trace_ok()
+    # two colour channels, x-polarised red and y-polarised green, the per-channel dictionaries written in
+    # different key orders: each channel's hologram of a centred sphere keeps both mirror symmetries
+    n = 7
+    det2c = detector_grid(n, PIX, extra_dims={"illumination": ["red", "green"]})
+    c0 = (det2c.x.values[3], det2c.y.values[3])
+    sc = Sphere(n=1.59, r=0.5, center=(c0[0], c0[1], 3.0))
+    ctx.case(("two_colour", "symmetric_hologram"))
+    try:
+        h = calc_holo(det2c, sc, medium_index=1.33, illum_wavelen={"red": 0.66, "green": 0.52},
+                      illum_polarization={"green": (0, 1), "red": (1, 0)}, theory=Mie())
+        worst = 0.0
+        for ch in ("red", "green"):
+            a = h.sel(illumination=ch).transpose("x", "y", "z").values[:, :, 0]
+            worst = max(worst, float(np.max(np.abs(a - a[::-1, :]))), float(np.max(np.abs(a - a[:, ::-1]))))
+        if worst > 1e-9:
+            ctx.violation("two_colour/sphere_hologram_symmetric", {"defect": worst})
+        else:
+            ctx.trace_ok()
+    except Exception as ex:
+        ctx.violation("two_colour/exception", {"exc": repr(ex)[:200]})
     ctx.exhaustive = not quick
 
 
